@@ -308,35 +308,20 @@ def conclusion (b : Board) (d : Nat) : Bool :=
 end Example
 
 /-
-TARGET (not yet proved): the two chess facts that `HashInj b 3` needs beyond `NoCollision b 3` (`hashInj_of_noCollision_3`):
+The two chess facts that `HashInj b 3` needs beyond `NoCollision b 3` (`hashInj_of_noCollision_3`) were the TARGET of this file;
+they are now PROVED in `Props/C08Transp.lean` (helper files `Proofs/SearchSimTransp{Codes,13,22}.lean`):
 
-  theorem transp13 (b : Board) (hinv : Inv 3 b) : Transp13 b
+  theorem C08Transp.transp13 (b : Board) (hinv : Inv 3 b) : Transp13 b
      -- ∀ p' p, Reach b 1 p' → Reach b 3 p → C06.HashKey p' ≠ C06.HashKey p
-  theorem transp22 (b : Board) (hinv : Inv 3 b) : Transp22 b
+  theorem C08Transp.transp22 (b : Board) (hinv : Inv 3 b) : Transp22 b
      -- ∀ p' p, Reach b 2 p' → Reach b 2 p → C06.HashKey p' = C06.HashKey p → p'.halfmove = p.halfmove
+  theorem C08Transp.go_eq_spec_le3   -- `go depth d`, 1 ≤ d ≤ 3, from `NoCollision` + `HashNonzero` alone
 
   `HashKey` = the twelve piece words, side to move, castling rights, e.p. file: everything the hash reads.
-  Proved (`Proofs/SearchSimHash.lean`): equal keys ⇒ equal ply parity (`key_parity`); the root is not reached again after two
-  plies (`key_cross02`: the first mover has vacated a square, `mkMover` clears the source bit of the moved piece's word, and the
-  reply only removes pieces of that side, `mkOther`); two root moves to the same key give the same visible position
-  (`key_same1`: a pawn move changes the mover's pawn word, a capture costs the other side material); at equal ply, equal key and
-  equal half-move clock give equal visible positions (`key_vis`: e.p. square from its file, full-move number from the ply).
-  Hence `SameDraft b d` for `d ≤ 2` (`sameDraft_le2`) and `go_eq_spec_le2`.
-  Missing for `d = 3`:
-  * `transp13`: the side that moves second in the 3-ply line has vacated a square that it still occupies in the 1-ply line –
-    unless the single move of the short line captures exactly that piece; then the capturing side's words differ on the capture
-    square (sub-cases: normal capture, en passant, promotion, recapture on the vacated square by the third move);
-  * `transp22`: a 2-ply line is determined by the position it reaches (so the half-move clocks agree); the sub-cases are the
-    combinations pawn move / capture / promotion of the two moves of either line.
-  Both use only the square-by-square description of `make` that `Proofs/MakeWf.lean` provides (`Upd`, `upd_mover`, `upd_other`,
-  `remA`, `addA`, `remP`) and `WF.wf` of the intermediate positions.
   For `d ≥ 4` the analogue of `transp13` between plies 2 and 4 is false – a transposition of moves reaches the same position two
   plies later – and the engine's probe `stored ≥ remaining` then uses a deeper-draft entry; that is why C08 stops at depth 3.
-  Everything else of the TARGET `negamax_eq_spec` of `Props/C08.lean` is proved above: simulation of quiescence and negamax
-  (state threading, make/unmake, fuel, node counters, flag polls), the hash-keyed table under `HashInj`, the repetition test, fuel.
-
-Not needed any more: a static node bound for NoPoll.  `go_eq_spec` has no hypothesis on the run: flag polls may happen
-  (every 100 000 nodes) but find an empty channel and no move time, so they only emit info lines (`Calm`, `calm_stepRel`).
+  `go_eq_spec` has no hypothesis on the run: flag polls may happen (every 100 000 nodes) but find an empty channel and no move
+  time, so they only emit info lines (`Calm`, `calm_stepRel`).
 -/
 
 end Inkayaku.C08Sim
